@@ -280,6 +280,14 @@ class DimensionedItem:
                 raise RuntimeError(f"{self}: number of coordinates in axis {i+1} ({nc}) does not match the "
                                    f"dimension {i+1} ({dims[i]})")
 
+    def _forget_dimension_from_values(self) -> None:
+        """Forget a dimension taken from the values at an earlier write, unless the user has re-assigned it since."""
+
+        derived = getattr(self, '_dimension_from_values', None)
+        if derived is not None and self.dimension.value is derived:
+            self.dimension._value = None
+        self._dimension_from_values = None
+
     def _check_or_set_value_dimensionality(self, value: Union[list, tuple, None],
                                            value_label: Optional[str] = None) -> None:
         """Determine the dimensionality (shape) of a value. Verify or set up the 'dimension' attr based on that."""
@@ -301,3 +309,4 @@ class DimensionedItem:
                                    f"the specified dimensionality: {self.dimension.value}")
         else:
             self.dimension.value = dim_from_value
+            self._dimension_from_values = self.dimension.value
